@@ -99,6 +99,30 @@ theorem strip_keeps_the_rest {α : Type} (toks : List α) (s e : Nat) (rest : Li
     dropRanges toks [] pos = toks.drop pos := by
   exact ⟨rfl, rfl⟩
 
+/-- **C14.strip_decision**: a top-level function statement of a package is stripped exactly when it is a plain
+`function NAME(...)` (single-name path, no method) and NAME is `_init`, `_update`, `_update60` or `_draw` — names that
+merely begin with or contain one of these are kept.  (The names are written out as bytes: the statement does not
+depend on the regenerated table, so a change of `GAME_LOOP_FUNCTION_NAMES` breaks this theorem.) -/
+theorem strip_decision (np : List Bytes) (m : Option Bytes) :
+    stripsStat np m = true ↔
+      m = none ∧ ∃ n, np = [n] ∧
+        (n = [95, 105, 110, 105, 116] ∨ n = [95, 117, 112, 100, 97, 116, 101] ∨
+         n = [95, 117, 112, 100, 97, 116, 101, 54, 48] ∨ n = [95, 100, 114, 97, 119]) := by
+  unfold stripsStat
+  constructor
+  · intro h
+    split at h
+    · rename_i n
+      refine ⟨rfl, n, rfl, ?_⟩
+      simpa [Gen.gameLoopNames, List.contains_iff_mem] using h
+    · cases h
+  · rintro ⟨rfl, n, rfl, h⟩
+    simpa [Gen.gameLoopNames, List.contains_iff_mem] using h
+
+example : stripsStat ["_update60".toUTF8.toList] none = true ∧ stripsStat ["_update_hud".toUTF8.toList] none = false ∧
+    stripsStat ["m".toUTF8.toList, "_init".toUTF8.toList] none = false ∧
+    stripsStat ["_draw".toUTF8.toList] (some "x".toUTF8.toList) = false := by decide +kernel
+
 example : (match evalCalls { locate := fun p _ => if p == [97] then some 1 else if p == [98] then some 2 else none,
                              callsOf := fun f _ => if f == 0 then [.ok ([97], false), .ok ([98], false), .ok ([97], true)]
                                                    else if f == 1 then [.ok ([98], false)] else [.ok ([97], false)] }
